@@ -23,7 +23,9 @@ import sys
 import tempfile
 
 REPO = os.environ.get("SFV_REPO", "/repo")
-OUT = os.path.join(os.path.dirname(os.path.abspath(__file__)), "..", "lean", "SfVerif", "Gen")
+OUT = os.environ.get("SFV_OUT") or os.path.join(os.path.dirname(os.path.abspath(__file__)), "..", "lean", "SfVerif", "Gen")
+sys.path.insert(0, os.path.dirname(os.path.abspath(__file__)))
+from canon import canon, tokens as canon_tokens
 
 
 class ExtractError(Exception):
@@ -44,6 +46,57 @@ def strip_tests(src):
 def strip_comments(src):
     src = re.sub(r"//[^\n]*", "", src)
     return re.sub(r"/\*.*?\*/", "", src, flags=re.S)
+
+
+def param_names(params_text):
+    """names of the parameters of a `fn` (without `self`)"""
+    out, depth, cur = [], 0, ""
+    for ch in params_text + ",":
+        if ch in "<([":
+            depth += 1
+        if ch in ">)]":
+            depth -= 1
+        if ch == "," and depth == 0:
+            cur = cur.strip()
+            if cur and not re.match(r"&?\s*(?:'\w+\s+)?(?:mut\s+)?self\b", cur):
+                out.append(re.sub(r"^mut\s+", "", cur.split(":")[0].strip()))
+            cur = ""
+        else:
+            cur += ch
+    return out
+
+
+def fn_parts(src, name, ret=r"[^{]+?"):
+    """(parameter names, body text) of `fn name`"""
+    m = re.search(r"fn\s+%s\s*(?:<[^>]*>)?\s*\(([^)]*)\)\s*(?:->\s*(%s))?\s*\{" % (name, ret), src)
+    if not m:
+        raise ExtractError("fn %s not found" % name)
+    depth, i = 1, m.end()
+    while depth and i < len(src):
+        depth += {"{": 1, "}": -1}.get(src[i], 0)
+        i += 1
+    return param_names(m.group(1)), src[m.end():i - 1]
+
+
+def tmatch(text, template, params=(), tparams=()):
+    """match a fragment of Rust against a template, both in canonical form (naming and layout do not
+    matter).  Holes in the template: HOLEWn = one word, HOLEXn = anything (shortest), HOLEGn = anything
+    (longest).  Returns the list of hole contents (canonical text) or None."""
+    ct = canon(text, params)
+    tt = canon(template, tparams)
+    rx, names = [], []
+    for tok in tt.split(" "):
+        m = re.fullmatch(r"HOLE([WXG])(\d+)", tok)
+        if m:
+            rx.append({"W": r"(\w+)", "X": r"(.*?)", "G": r"(.*)"}[m.group(1)])
+        else:
+            rx.append(re.escape(tok))
+    mm = re.fullmatch(" ?".join(rx), ct)
+    return list(mm.groups()) if mm else None
+
+
+def same_shape(text, template, params=(), tparams=()):
+    return canon(text, params) == canon(template, tparams)
 
 
 # --------------------------------------------------------------------------- const expressions
@@ -356,21 +409,41 @@ def gen_structure():
             depth += {"{": 1, "}": -1}.get(lib[i], 0)
             i += 1
         body = lib[mm.end(): i]
-        repl = re.search(r"\*context\s*=\s*Context::(new|default)\(", body)
+        # the name the context goes by inside the initialiser (`|context|`)
+        cv = re.search(r"(?:with_borrow_mut|with_mut)\(\s*\|\s*(\w+)\s*\|", body)
+        cv = cv.group(1) if cv else "context"
         taken = {}
-        for t in re.finditer(r"let\s+(\w+)\s*=\s*(?:std::)?mem::take\(&mut\s+context\.(\w+)\)", body):
+        for t in re.finditer(r"let\s+(\w+)\s*=\s*(?:std::)?mem::take\(&mut\s+%s\.(\w+)\)" % cv, body):
             taken[t.group(1)] = t.group(2)
-        after = body[repl.end():] if repl else body
         carried, assigned = [], []
-        for a in re.finditer(r"context\.(\w+)\s*=\s*([^;]+);", after):
+        repl = re.search(r"\*%s\s*=\s*Context::(new|default)\(" % cv, body)
+        upd = re.search(r"\*%s\s*=\s*Context\s*\{(.*?)\.\.\s*Context::(new|default)\(" % cv, body, flags=re.S)
+        if upd and not repl:
+            # `*context = Context { field, field: value, ..Context::new(..) }`: the listed fields are set
+            # on top of a freshly constructed context
+            repl = upd
+            for ent in [e.strip() for e in upd.group(1).split(",") if e.strip()]:
+                mm2 = re.fullmatch(r"(\w+)(?:\s*:\s*(.+))?", ent, flags=re.S)
+                if not mm2:
+                    raise ExtractError("%s: cannot read the struct-update entry %r" % (fn_name, ent))
+                fld, rhs = mm2.group(1), (mm2.group(2) or mm2.group(1)).strip()
+                if rhs in taken and taken[rhs] == fld:
+                    carried.append(fld)
+                else:
+                    assigned.append(fld)
+            how = upd.group(2)
+        else:
+            how = repl.group(1) if repl else ""
+        after = body[repl.end():] if repl else body
+        for a in re.finditer(r"%s\.(\w+)\s*=\s*([^;]+);" % cv, after):
             fld, rhs = a.group(1), a.group(2).strip()
             if rhs in taken and taken[rhs] == fld:
                 carried.append(fld)
             else:
                 assigned.append(fld)
         # anything else that mutates context fields in place before the replacement is suspicious
-        inplace = [] if repl else re.findall(r"context\.(\w+)\s*=", body)
-        return (bool(repl), repl.group(1) if repl else "", sorted(carried), sorted(assigned), sorted(inplace))
+        inplace = [] if repl else re.findall(r"%s\.(\w+)\s*=" % cv, body)
+        return (bool(repl), how, sorted(carried), sorted(assigned), sorted(inplace))
 
     native = initialiser("initialize_from_msgpack_bytes")
     wasm = initialiser("initialize")
@@ -711,11 +784,11 @@ def gen_abi():
     table("abiHeader", [(n, p, r) for _, n, p, r in hdr])
     table("abiRustExtern", [(n, p, r) for _, n, p, r in ext])
     lines.append("def trampolineAcceptsNames : List (List Nat) := [\n  %s\n]" % ",\n  ".join(name_lit(o) for o, _ in sorted(pairs)))
-    table("trampolineExpectedSigs", [(n, p, r) for n, (p, r) in expected.items()])
+    # what the tool insists on / adds / emits / tolerates is no longer read off the source text (a
+    # refactor of the emitting code silently changed what these regexes saw): `sfw abi` probes the real
+    # tool and writes Gen/AbiTool.lean
     lines.append("/-- the trampoline's IMPORTS table in source order: (public name, provider name or empty) -/")
     lines.append("def trampolineImportPairs : List (List Nat × List Nat) := [\n  %s\n]" % ",\n  ".join("(%s, %s)" % (name_lit(o), name_lit(nw)) for o, nw in pairs))
-    lines.append("/-- provider imports the trampoline adds, with explicit types, in source order -/")
-    lines.append("def trampolineAdds : List Sig := [\n  %s\n]" % ",\n  ".join(sig_lit((n, p_, r_)) for n, (p_, r_) in emitted.items()))
     # what the trampoline emits: renamed imports keep the guest's (= WAT's) signature
     watd = dict((n, (p, r)) for _, n, p, r in wat)
     emits = []
@@ -731,9 +804,7 @@ def gen_abi():
     for extra in emitted:
         if extra not in [e[0] for e in emits]:
             emits.append((extra, emitted[extra][0], emitted[extra][1]))
-    table("trampolineEmits", emits)
     table("providerExports", prov)
-    lines.append("def trampolineAllowList : List (List Nat) := [%s]" % ", ".join(name_lit(a) for a in sorted(allow)))
     mods = sorted(set(m for m, _, _, _ in wat))
     lines.append("def moduleNamesWat : List (List Nat) := [%s]" % ", ".join(name_lit(m) for m in mods))
     lines.append("def moduleNameHeader : List Nat := %s" % name_lit(hdr_mod))
@@ -775,6 +846,14 @@ def gen_markers():
         m = re.search(r"fn\s+read_%s\s*\(&mut self\)\s*->\s*Result<%s,\s*ErrorCode>\s*\{(.*?)\n    \}" % (ty, ty), src, flags=re.S)
         if not m:
             raise ExtractError("Cursor::read_%s not found" % ty)
+        if n == 1:
+            tpl = ("if self.position + 1 > self.length { return Err(ErrorCode::ReadError); } let value = self.bytes[self.position]%s; "
+                   "self.position += 1; Ok(value)" % ("" if ty == "u8" else " as i8"))
+        else:
+            tpl = ("if self.position + %d > self.length { return Err(ErrorCode::ReadError); } let bytes = &self.bytes[self.position..]; "
+                   "let value = %s::from_be_bytes([%s]); self.position += %d; Ok(value)" % (n, ty, ", ".join("bytes[%d]" % i for i in range(n)), n))
+        if same_shape(m.group(1), tpl):
+            continue
         body = re.sub(r"\s+", "", m.group(1))
         if "ifself.position+%d>self.length{returnErr(ErrorCode::ReadError);}" % n not in body:
             raise ExtractError("Cursor::read_%s: bounds check is not `position + %d > length`" % (ty, n))
@@ -805,30 +884,35 @@ def gen_markers():
         arms.append([am.group(2) or "_", am.group(3), am.end()])
     for k, a in enumerate(arms):
         end = arms[k + 1][2] - len(re.search(r"(Marker::\w+(?:\(\w+\))?|_)\s*=>$", body[:arms[k + 1][2]]).group(0)) if k + 1 < len(arms) else len(body)
-        a.append(re.sub(r"\s+", "", body[a[2]:end]).rstrip(","))
+        a.append(body[a[2]:end].strip().rstrip(",").strip())
     table = {}
     for name, binder, _, text in arms:
+        bp = [binder] if binder else []
+
+        def eq(want):
+            return same_shape(text, want, bp, ["bnd"] if binder else [])
+
         def number(reader_ty, conv):
             return "numHdr b p %d %s" % (READER_WIDTH[reader_ty], conv)
         if name == "_":
-            if text != "Err(ErrorCode::ReadError)":
+            if not eq("Err(ErrorCode::ReadError)"):
                 raise ExtractError("the catch-all marker arm is no longer a read error")
             continue
         if name in ("Null", "False", "True"):
-            want = {"Null": "Ok((Self::Null,Some(cursor.position)))", "False": "Ok((Self::Bool(false),Some(cursor.position)))",
-                    "True": "Ok((Self::Bool(true),Some(cursor.position)))"}[name]
-            if text != want:
+            want = {"Null": "Ok((Self::Null, Some(cursor.position)))", "False": "Ok((Self::Bool(false), Some(cursor.position)))",
+                    "True": "Ok((Self::Bool(true), Some(cursor.position)))"}[name]
+            if not eq(want):
                 raise ExtractError("marker arm %s changed" % name)
             table[name] = {"Null": "some (.scalar .null p)", "False": "some (.scalar (.bool false) p)", "True": "some (.scalar (.bool true) p)"}[name]
         elif name in ("FixPos", "FixNeg"):
-            if text != "Ok((Self::Number(%sasf64),Some(cursor.position)))" % binder:
+            if not binder or not eq("Ok((Self::Number(bnd as f64), Some(cursor.position)))"):
                 raise ExtractError("marker arm %s changed" % name)
             table[name] = ("some (.scalar (.num (F64.ofNat m)) p)" if name == "FixPos"
                            else "some (.scalar (.num (F64.ofInt (toSigned 8 m))) p)")
         elif name in ("U8", "U16", "U32", "U64", "I8", "I16", "I32", "I64", "F32", "F64"):
             ty = name.lower()
-            num = "n" if name == "F64" else "nasf64"
-            if text != "cursor.read_%s().map(|n|(Self::Number(%s),Some(cursor.position)))" % (ty, num):
+            num = "n" if name == "F64" else "n as f64"
+            if not eq("cursor.read_%s().map(|n| (Self::Number(%s), Some(cursor.position)))" % (ty, num)):
                 raise ExtractError("marker arm %s changed" % name)
             if name == "F32":
                 table[name] = number(ty, "F64.ofF32")
@@ -841,16 +925,21 @@ def gen_markers():
         elif name in ("FixStr", "Str8", "Str16", "Str32", "FixMap", "Map16", "Map32", "FixArray", "Array16", "Array32"):
             kind = "str" if "Str" in name else ("map" if "Map" in name else "arr")
             fixed = name.startswith("Fix")
-            lenexpr = ("letlen=%sasusize;" % binder) if fixed else \
-                ("letlen=cursor.read_u%s().map(|n|nasusize)?;" % {"8": "8", "16": "16", "32": "32"}[re.sub(r"\D", "", name)])
-            guard = {"str": "iflen>cursor.length-cursor.position{returnErr(ErrorCode::ReadError);}",
-                     "map": "iflen>(cursor.length-cursor.position)/2{returnErr(ErrorCode::ReadError);}",
-                     "arr": "iflen>(cursor.length-cursor.position){returnErr(ErrorCode::ReadError);}"}[kind]
-            result = {"str": "Ok((Self::String(StringRef{ptr:cursor.position,len,}),Some(cursor.position+len),))",
-                      "map": "Ok((Self::Object(ObjectRef{len,processed_elements:Vec::with_capacity_in(len,bump),end_position_of_last_processed_element:cursor.position,}),None,))",
-                      "arr": "Ok((Self::Array(ArrayRef{len,processed_elements:Vec::with_capacity_in(len,bump),end_position_of_last_processed_element:cursor.position,}),None,))"}[kind]
-            if text != "{" + lenexpr + guard + result + "}":
-                raise ExtractError("marker arm %s changed: %s" % (name, text[:120]))
+            if fixed and not binder:
+                raise ExtractError("marker arm %s no longer binds the embedded length" % name)
+            lenexpr = "let LENV = bnd as usize; " if fixed else \
+                ("let LENV = cursor.read_u%s().map(|n| n as usize)?; " % re.sub(r"\D", "", name))
+            guards = {"str": ["if LENV > cursor.length - cursor.position { return Err(ErrorCode::ReadError); } "],
+                      "map": ["if LENV > (cursor.length - cursor.position) / 2 { return Err(ErrorCode::ReadError); } "],
+                      "arr": ["if LENV > (cursor.length - cursor.position) { return Err(ErrorCode::ReadError); } ",
+                              "if LENV > cursor.length - cursor.position { return Err(ErrorCode::ReadError); } "]}[kind]
+            result = {"str": "Ok((Self::String(StringRef { ptr: cursor.position, len: LENV, }), Some(cursor.position + LENV),))",
+                      "map": "Ok((Self::Object(ObjectRef { len: LENV, processed_elements: Vec::with_capacity_in(LENV, bump), end_position_of_last_processed_element: cursor.position, }), None,))",
+                      "arr": "Ok((Self::Array(ArrayRef { len: LENV, processed_elements: Vec::with_capacity_in(LENV, bump), end_position_of_last_processed_element: cursor.position, }), None,))"}[kind]
+            # the length may shadow the binder (`let len = len as usize`) or be a new name
+            lenvars = ["len", "bnd"] if fixed else ["len"]
+            if not any(eq(("{ " + lenexpr + gd + result + " }").replace("LENV", lv)) for gd in guards for lv in lenvars):
+                raise ExtractError("marker arm %s changed: %s" % (name, canon(text, bp)[:160]))
             hdr = {"str": "strHdr", "map": "mapHdr", "arr": "arrHdr"}[kind]
             if fixed:
                 base = {"FixStr": "0xa0", "FixMap": "0x80", "FixArray": "0x90"}[name]
@@ -890,42 +979,43 @@ STATE_FN = {"write_non_string_scalar": "WState.writeNonStringScalar", "write_str
 
 def gen_writer():
     """Gen/WriterStep.lean: which state-machine method each provider write function consults and which
-    rmp encoder it calls with which argument (provider/src/write.rs, `impl Context`)"""
+    rmp encoder it calls with which argument (provider/src/write.rs, `impl Context`).  Shapes are compared
+    in canonical form (extract/canon.py): layout and the names of parameters / locals do not matter."""
     src = strip_comments(strip_tests(read("provider/src/write.rs")))
 
     def body(fn):
-        m = re.search(r"fn\s+%s\s*\(([^)]*)\)\s*->\s*([^{]+?)\s*\{" % fn, src)
-        if not m:
+        try:
+            return fn_parts(src, fn)
+        except ExtractError:
             raise ExtractError("Context::%s not found" % fn)
-        depth, i = 1, m.end()
-        while depth and i < len(src):
-            depth += {"{": 1, "}": -1}.get(src[i], 0)
-            i += 1
-        return re.sub(r"\s+", "", src[m.end():i - 1])
 
     out = ["-- REGENERATED by /verif/extract/extract.py from provider/src/write.rs (impl Context); do not edit",
            "import SfVerif.Model.Writer", "namespace SfVerif.Gen", "open SfVerif SfVerif.Gen",
            "/-- one provider write call, assembled from what each Rust function consults and emits -/",
            "def writerStepGen (w : Writer) : WOp → Writer × Nat × Option Nat"]
     # scalars: state method, encoder, argument
-    for fn, ctor, arg, lean_arg in [("write_bool", ".bool v", "bool", "v"), ("write_nil", ".null", None, None),
-                                    ("write_i32", ".i32 z", "intasi64", "z"), ("write_f64", ".f64 bits", "float", "bits")]:
-        b = body(fn)
-        m = re.fullmatch(r"letresult=self\.write_state\.(\w+)\(\);ifresult!=WriteResult::Ok\{returnresult;\}"
-                         r"encode::(\w+)\(&mutself\.output_bytes(?:,(\w+))?\)\.unwrap\(\);WriteResult::Ok", b)
-        if not m or m.group(1) not in STATE_FN or m.group(2) not in ENCODER or (m.group(3) or None) != arg:
-            raise ExtractError("Context::%s changed shape: %s" % (fn, b[:160]))
-        enc = ENCODER[m.group(2)] + ((" " + lean_arg) if lean_arg else "")
+    for fn, ctor, arg, lean_arg in [("write_bool", ".bool v", "P0", "v"), ("write_nil", ".null", None, None),
+                                    ("write_i32", ".i32 z", "P0 as i64", "z"), ("write_f64", ".f64 bits", "P0", "bits")]:
+        ps, b = body(fn)
+        g = tmatch(b, "let result = self.write_state.HOLEW1(); if result != WriteResult::Ok { return result; } "
+                      "encode::HOLEW2(&mut self.output_bytes HOLEX3).unwrap(); WriteResult::Ok", ps)
+        got_arg = None
+        if g and g[2].strip():
+            got_arg = g[2].strip()
+            got_arg = got_arg[1:].strip() if got_arg.startswith(",") else "?"
+        if not g or g[0] not in STATE_FN or g[1] not in ENCODER or got_arg != arg:
+            raise ExtractError("Context::%s changed shape: %s" % (fn, canon(b, ps)[:200]))
+        enc = ENCODER[g[1]] + ((" " + lean_arg) if lean_arg else "")
         out += ["  | %s =>" % ctor,
-                "    let (st, r) := %s w.st" % STATE_FN[m.group(1)],
+                "    let (st, r) := %s w.st" % STATE_FN[g[0]],
                 "    if r ≠ WriteResult_Ok then ({ w with st := st }, r, none)",
                 "    else (({ w with st := st }).appendBytes (%s), r, none)" % enc]
-    b = body("allocate_utf8_str")
-    want = ("letresult=self.write_state.write_string();ifresult!=WriteResult::Ok{return(result,std::ptr::null());}"
-            "encode::write_str_len(&mutself.output_bytes,lenasu32).unwrap();letoriginal_len=self.output_bytes.as_slice().len();"
-            "self.output_bytes.as_mut_vec().resize(original_len+len,0);(WriteResult::Ok,self.output_bytes.as_slice()[original_len..].as_ptr(),)")
-    if b != want:
-        raise ExtractError("Context::allocate_utf8_str changed shape: %s" % b[:200])
+    ps, b = body("allocate_utf8_str")
+    want = ("let result = self.write_state.write_string(); if result != WriteResult::Ok { return (result, std::ptr::null()); } "
+            "encode::write_str_len(&mut self.output_bytes, len as u32).unwrap(); let original_len = self.output_bytes.as_slice().len(); "
+            "self.output_bytes.as_mut_vec().resize(original_len + len, 0); (WriteResult::Ok, self.output_bytes.as_slice()[original_len..].as_ptr(),)")
+    if not same_shape(b, want, ps, ["len"]):
+        raise ExtractError("Context::allocate_utf8_str changed shape: %s" % canon(b, ps)[:240])
     out += ["  | .strAlloc len =>",
             "    let (st, r) := WState.writeString w.st",
             "    if r ≠ WriteResult_Ok then ({ w with st := st }, r, none)",
@@ -935,21 +1025,23 @@ def gen_writer():
             "      ({ w1 with out := w1.out ++ Array.replicate len 0 }, r, some off)"]
     for fn, ctor, sm, newst, enc in [("start_object", ".obj len", "start_object", ".obj len 0", "write_map_len"),
                                      ("start_array", ".arr len", "start_array", ".arr len 0", "write_array_len")]:
-        b = body(fn)
-        want = ("letresult=self.write_state.%s(len,&mutself.write_parent_state_stack);ifresult!=WriteResult::Ok{returnresult;}"
-                "encode::%s(&mutself.output_bytes,lenasu32).unwrap();WriteResult::Ok" % (sm, enc))
-        if b != want:
-            raise ExtractError("Context::%s changed shape: %s" % (fn, b[:200]))
+        ps, b = body(fn)
+        want = ("let result = self.write_state.%s(len, &mut self.write_parent_state_stack); if result != WriteResult::Ok { return result; } "
+                "encode::%s(&mut self.output_bytes, len as u32).unwrap(); WriteResult::Ok" % (sm, enc))
+        if not same_shape(b, want, ps, ["len"]):
+            raise ExtractError("Context::%s changed shape: %s" % (fn, canon(b, ps)[:240]))
         out += ["  | %s =>" % ctor,
                 "    let (st, stack, r) := WState.startContainer (%s) w.st w.stack" % newst,
                 "    if r ≠ WriteResult_Ok then ({ w with st := st, stack := stack }, r, none)",
                 "    else (({ w with st := st, stack := stack }).appendBytes (%s len), r, none)" % ENCODER[enc]]
     for fn, ctor, sm, lean in [("finish_object", ".endObj", "finish_object", "WState.finishObject"),
                                ("finish_array", ".endArr", "finish_array", "WState.finishArray")]:
-        b = body(fn)
-        want = ("letresult=self.write_state.%s(&mutself.write_parent_state_stack);ifresult!=WriteResult::Ok{returnresult;}WriteResult::Ok" % sm)
-        if b != want:
-            raise ExtractError("Context::%s changed shape: %s" % (fn, b[:200]))
+        ps, b = body(fn)
+        want = ("let result = self.write_state.%s(&mut self.write_parent_state_stack); if result != WriteResult::Ok { return result; } WriteResult::Ok" % sm)
+        # `return the state machine's answer` spelled directly is the same function
+        alt = "self.write_state.%s(&mut self.write_parent_state_stack)" % sm
+        if not (same_shape(b, want, ps) or same_shape(b, alt, ps)):
+            raise ExtractError("Context::%s changed shape: %s" % (fn, canon(b, ps)[:240]))
         out += ["  | %s =>" % ctor,
                 "    let (st, stack, r) := %s w.st w.stack" % lean,
                 "    ({ w with st := st, stack := stack }, r, none)"]
@@ -960,55 +1052,108 @@ def gen_writer():
 def gen_read_entries():
     """Gen/ReadEntry.lean: the scope dispatch of the read entry points (provider/src/read.rs): which
     decoded kinds are accepted, which node method is called, which codes answer a wrong kind and an
-    undecodable scope, how `Ok(None)` is answered"""
+    undecodable scope, how `Ok(None)` is answered.  Shapes are compared in canonical form (layout and
+    the names of parameters, locals, closure parameters and pattern binders do not matter)."""
     src = strip_comments(strip_tests(read("provider/src/read.rs")))
 
-    def body(fn):
-        m = re.search(r"fn\s+%s\s*\(([^)]*)\)\s*->\s*(\w+)\s*\{" % fn, src)
-        if not m:
-            raise ExtractError("%s not found" % fn)
-        depth, i = 1, m.end()
-        while depth and i < len(src):
-            depth += {"{": 1, "}": -1}.get(src[i], 0)
-            i += 1
-        return re.sub(r"\s+", "", src[m.end():i - 1])
-
-    pats = {"NanBoxValueRef::Object{ptr:obj_ptr,..}": ("obj_ptr", False), "NanBoxValueRef::Object{ptr,..}": ("ptr", False),
-            "NanBoxValueRef::Array{ptr,len:_}|NanBoxValueRef::Object{ptr,len:_}": ("ptr", True)}
+    pats = [("NanBoxValueRef::Object { ptr: obj_ptr, .. }", False),
+            ("NanBoxValueRef::Object { ptr: obj_ptr, len: _ }", False),
+            ("NanBoxValueRef::Array { ptr: obj_ptr, len: _ } | NanBoxValueRef::Object { ptr: obj_ptr, len: _ }", True),
+            ("NanBoxValueRef::Array { ptr: obj_ptr, .. } | NanBoxValueRef::Object { ptr: obj_ptr, .. }", True),
+            ("NanBoxValueRef::Object { ptr: obj_ptr, len: _ } | NanBoxValueRef::Array { ptr: obj_ptr, len: _ }", True),
+            ("NanBoxValueRef::Object { ptr: obj_ptr, .. } | NanBoxValueRef::Array { ptr: obj_ptr, .. }", True)]
     method = {"get_at_index": "Node.getAtIndex", "get_key_at_index": "Node.getKeyAtIndex", "get_object_property": "Node.getProp"}
     out = ["-- REGENERATED by /verif/extract/extract.py from provider/src/read.rs; do not edit",
            "import SfVerif.Model.Ctx", "namespace SfVerif.Gen", "open SfVerif SfVerif.Gen"]
-    for fn, lean, arg, extra, step in [
-            ("shopify_function_input_get_at_index", "getAtIndexGen", "index", "(i : Nat)", "(c.idxStep h)"),
-            ("shopify_function_input_get_obj_key_at_index", "getKeyAtIndexGen", "index", "(i : Nat)", "PStep.key"),
-            ("shopify_function_input_get_obj_prop", "getObjPropGen", "query", "(q : Bytes)", "PStep.val")]:
-        b = body(fn)
-        m = re.fullmatch(r"Context::with\(\|context\|\{letv=NanBox::from_bits\(scope\);matchv\.try_decode\(\)\{Ok\((.*?)\)=>\{(.*)\}"
-                         r"Ok\(_\)=>NanBox::error\(ErrorCode::(\w+)\)\.to_bits\(\),Err\(_\)=>NanBox::error\(ErrorCode::(\w+)\)\.to_bits\(\),\}\}\)", b)
-        if not m or m.group(1) not in pats:
+    for fn, lean, nparams, extra, step in [
+            ("shopify_function_input_get_at_index", "getAtIndexGen", 2, "(i : Nat)", "(c.idxStep h)"),
+            ("shopify_function_input_get_obj_key_at_index", "getKeyAtIndexGen", 2, "(i : Nat)", "PStep.key"),
+            ("shopify_function_input_get_obj_prop", "getObjPropGen", 3, "(q : Bytes)", "PStep.val")]:
+        try:
+            ps, b = fn_parts(src, fn, r"\w+")
+        except ExtractError:
+            raise ExtractError("%s not found" % fn)
+        if len(ps) != nparams:
+            raise ExtractError("%s: parameter list changed" % fn)
+        g = tmatch(b, "Context::with(|context| { let v = NanBox::from_bits(P0); match v.try_decode() { Ok(HOLEX1) => { HOLEG2 } "
+                      "Ok(_) => NanBox::error(ErrorCode::HOLEW3).to_bits(), Err(_) => NanBox::error(ErrorCode::HOLEW4).to_bits(), } })", ps)
+        if not g:
             raise ExtractError("%s: scope dispatch changed shape" % fn)
-        pvar, accept_arr = pats[m.group(1)]
-        inner = m.group(2)
-        if fn.endswith("obj_prop"):
-            pre = "letquery=unsafe{std::slice::from_raw_parts(ptras*constu8,len)};"
-            if not inner.startswith(pre):
-                raise ExtractError("%s: the query is no longer the (ptr, len) slice" % fn)
-            inner = inner[len(pre):]
-        mi = re.fullmatch(r"letvalue=matchLazyValueRef::mut_from_raw\(%s as_\)\{Ok\(value\)=>value,Err\(e\)=>returnNanBox::error\(e\)\.to_bits\(\),\};"
-                          r"matchvalue\.(\w+)\(%s,&context\.input_bytes,&context\.bump_allocator,\)\{(.*)\}".replace(" as_", "as_") % (pvar, arg), inner)
-        if not mi or mi.group(1) not in method:
-            raise ExtractError("%s: node operation changed shape: %s" % (fn, inner[:160]))
-        res = mi.group(2)
-        want_opt = "Ok(Some(value))=>value.encode().to_bits(),Ok(None)=>NanBox::null().to_bits(),Err(e)=>NanBox::error(e).to_bits(),"
-        want_plain = "Ok(value)=>value.encode().to_bits(),Err(e)=>NanBox::error(e).to_bits(),"
-        if res != (want_opt if mi.group(1) == "get_object_property" else want_plain):
-            raise ExtractError("%s: result mapping changed" % fn)
-        callarg = "i" if arg == "index" else "q"
+        is_prop = fn.endswith("obj_prop")
+        arg = "query" if is_prop else "P1"
+        pre = "let query = unsafe { std::slice::from_raw_parts(P1 as *const u8, P2) }; " if is_prop else ""
+        res_opt = "Ok(Some(value)) => value.encode().to_bits(), Ok(None) => NanBox::null().to_bits(), Err(e) => NanBox::error(e).to_bits(),"
+        res_plain = "Ok(value) => value.encode().to_bits(), Err(e) => NanBox::error(e).to_bits(),"
+        found = None
+        for pat, accept_arr in pats:
+            for mname in method:
+                tpl = (pat + " => " + pre +
+                       "let value = match LazyValueRef::mut_from_raw(obj_ptr as _) { Ok(value) => value, Err(e) => return NanBox::error(e).to_bits(), }; "
+                       "match value.%s(%s, &context.input_bytes, &context.bump_allocator,) { %s }" % (
+                           mname, arg, res_opt if mname == "get_object_property" else res_plain))
+                if same_shape(g[0] + " => " + g[1], tpl):
+                    found = (accept_arr, mname)
+        if not found:
+            raise ExtractError("%s: node operation changed shape: %s" % (fn, (g[0] + " => " + g[1])[:200]))
+        accept_arr, mname = found
+        callarg = "q" if is_prop else "i"
         out += ["/-- `%s` -/" % fn,
                 "def %s (c : Ctx) (s : Scope) %s : Ctx × RVal :=" % (lean, extra),
-                "  Ctx.dispatch c s %s ErrorCode_%s ErrorCode_%s" % ("true" if accept_arr else "false", m.group(3), m.group(4)),
-                "    (fun h => c.nodeOp h (fun n => %s c.input c.fuel n %s) %s)" % (method[mi.group(1)], callarg, step)]
+                "  Ctx.dispatch c s %s ErrorCode_%s ErrorCode_%s" % ("true" if accept_arr else "false", g[2], g[3]),
+                "    (fun h => c.nodeOp h (fun n => %s c.input c.fuel n %s) %s)" % (method[mname], callarg, step)]
     out.append("end SfVerif.Gen")
+    return "\n".join(out) + "\n"
+
+
+def gen_deint():
+    """Gen/DeInt.lean: the integer `Deserialize` macro of api/src/read.rs — the acceptance test
+    (integrality, lower bound, upper bound, with the comparison operators as written), the cast, and the
+    list of integer types the macro is instantiated for."""
+    src = strip_comments(strip_tests(read("api/src/read.rs")))
+    m = re.search(r"macro_rules!\s*impl_deserialize_for_int\s*\{\s*\(\s*\$ty\s*:\s*ty\s*\)\s*=>\s*\{", src)
+    if not m:
+        raise ExtractError("macro impl_deserialize_for_int not found")
+    depth, i = 1, m.end()
+    while depth and i < len(src):
+        depth += {"{": 1, "}": -1}.get(src[i], 0)
+        i += 1
+    body = src[m.end():i - 1].replace("$ty", "TY")
+    g = tmatch(body, "impl Deserialize for TY { fn deserialize(value: &Value) -> Result<Self, Error> { "
+                     "value.as_number().and_then(|n| { if n.trunc() == n && n HOLEX1 <TY>::MIN as f64 && n HOLEX2 <TY>::MAX as f64 "
+                     "{ Some(n as TY) } else { None } }).ok_or(Error::InvalidType) } }")
+    if not g:
+        raise ExtractError("impl_deserialize_for_int changed shape: %s" % canon(body)[:300])
+    lo_op, hi_op = g[0].strip(), g[1].strip()
+    lo_rel = {">=": "flo ≤ z", ">": "flo < z"}.get(lo_op)
+    hi_rel = {"<=": "z ≤ fhi", "<": "z < fhi"}.get(hi_op)
+    if lo_rel is None or hi_rel is None:
+        raise ExtractError("impl_deserialize_for_int: unsupported bound comparison `%s` / `%s`" % (lo_op, hi_op))
+    tys = re.findall(r"impl_deserialize_for_int!\s*\(\s*(\w+)\s*\)\s*;", src)
+    bounds = {"i8": (-2**7, 2**7 - 1), "i16": (-2**15, 2**15 - 1), "i32": (-2**31, 2**31 - 1), "i64": (-2**63, 2**63 - 1),
+              "u8": (0, 2**8 - 1), "u16": (0, 2**16 - 1), "u32": (0, 2**32 - 1), "u64": (0, 2**64 - 1)}
+    rows = []
+    for t in tys:
+        if t in bounds:
+            rows.append("(%s, %d, %d, %d, %d)" % (name_lit(t), bounds[t][0], bounds[t][1], bounds[t][0], bounds[t][1]))
+        elif t == "isize":
+            rows.append("(%s, %d, %d, %d, %d)" % (name_lit(t), -2**31, 2**31 - 1, -2**63, 2**63 - 1))
+        elif t == "usize":
+            rows.append("(%s, %d, %d, %d, %d)" % (name_lit(t), 0, 2**32 - 1, 0, 2**64 - 1))
+        else:
+            raise ExtractError("impl_deserialize_for_int instantiated for an unsupported type %s" % t)
+    out = ["-- REGENERATED by /verif/extract/extract.py from api/src/read.rs (impl_deserialize_for_int); do not edit",
+           "import SfVerif.Model.Typed", "namespace SfVerif.Gen", "open SfVerif",
+           "/-- the macro body: `n.trunc() == n && n %s MIN as f64 && n %s MAX as f64` then `n as $ty` -/" % (lo_op, hi_op),
+           "def deIntGen (lo hi : Int) (bits : Nat) : Option Int :=",
+           "  match F64.toInt? bits with",
+           "  | Option.none => Option.none",
+           "  | Option.some z =>",
+           "    match F64.toInt? (F64.ofInt lo), F64.toInt? (F64.ofInt hi) with",
+           "    | Option.some flo, Option.some fhi => if %s ∧ %s then Option.some (satCast lo hi z) else Option.none" % (lo_rel, hi_rel),
+           "    | _, _ => Option.none",
+           "/-- the integer types the macro is instantiated for: (name, MIN, MAX at 32-bit pointers, MIN, MAX at 64-bit pointers) -/",
+           "def deIntTypes : List (List Nat × Int × Int × Int × Int) := [%s]" % ", ".join(rows),
+           "end SfVerif.Gen"]
     return "\n".join(out) + "\n"
 
 
@@ -1021,19 +1166,54 @@ def gen_fns_nanbox(const_names):
     import rs2lean
     try:
         core = strip_comments(strip_tests(read("core/src/read.rs")))
-        out = list(FNS_HEADER)
+        out = [FNS_HEADER[0], "import SfVerif.Model.NanBox", "namespace SfVerif.Gen"]
         params, body = rs2lean.find_fn(core, "encode", "NanBox")
-        if [x.split(":")[0].strip() for x in params.split(",") if x.strip()] != ["ptr", "len", "tag"]:
-            raise ExtractError("NanBox::encode parameters changed: %s" % params)
+        pn = param_names(params)
+        if len(pn) != 3 or not re.fullmatch(r"\s*\w+\s*:\s*usize\s*,\s*\w+\s*:\s*usize\s*,\s*\w+\s*:\s*Tag\s*,?\s*", params):
+            raise ExtractError("NanBox::encode parameters are no longer (usize, usize, Tag): %s" % params)
         out.append("/-- `NanBox::encode` (core/src/read.rs) -/")
         out.append("def nanbox_encode (w ptr len tag : Nat) : Nat :=")
-        out.append(rs2lean.translate(body, {"ptr": "ptr", "len": "len", "tag": "tag"}, const_names))
+        out.append(rs2lean.translate(body, {pn[0]: "ptr", pn[1]: "len", pn[2]: "tag"}, const_names))
         out.append("")
         params, body = rs2lean.find_fn(core, "number", "NanBox")
         out.append("/-- `NanBox::number` (the NaN assertion is the caller's obligation) -/")
         out.append("def nanbox_number (w bits : Nat) : Nat :=")
-        out.append(rs2lean.translate(body, {"val": "bits"}, const_names))
+        pn = param_names(params)
+        if len(pn) != 1:
+            raise ExtractError("NanBox::number parameters changed: %s" % params)
+        out.append(rs2lean.translate(body, {pn[0]: "bits"}, const_names))
         out += ["", "end SfVerif.Gen"]
+        # ---- the decode side: NanBox::try_decode with NanBox::tag inlined
+        fvp, fv = rs2lean.find_fn(core, "from_val", "Tag")
+        fv_norm = re.sub(r'"[^"]*"', "S", fv)
+        fv_params = param_names(fvp)
+        if not same_shape(fv_norm, "match u8::try_from(v) { Ok(v) => Self::from_repr(v).ok_or_else(|| format!(S).into()), Err(_) => Err(format!(S).into()), }", fv_params, ["v"]):
+            raise ExtractError("Tag::from_val is no longer `u8::try_from(v)` then `Self::from_repr(v)` (else Err)")
+        if not re.search(r"#\[derive\([^)]*strum::FromRepr[^)]*\)\]\s*#\[repr\(u8\)\]\s*enum\s+Tag\b", core):
+            raise ExtractError("enum Tag is no longer #[derive(strum::FromRepr)] #[repr(u8)]")
+        if not re.search(r"#\[derive\([^)]*strum::FromRepr[^)]*\)\]\s*#\[repr\(usize\)\]\s*(?:#\[non_exhaustive\]\s*)?pub\s+enum\s+ErrorCode\b", core):
+            raise ExtractError("enum ErrorCode is no longer #[derive(strum::FromRepr)] #[repr(usize)]")
+        # the two pointer-width variants of one `let`
+        _, td_raw = rs2lean.find_fn(core, "try_decode", "NanBox")
+        m = re.search(r'#\[cfg\(target_pointer_width\s*=\s*"32"\)\]\s*let\s+(\w+)\s*=\s*([^;]+);\s*'
+                      r'#\[cfg\(target_pointer_width\s*=\s*"64"\)\]\s*let\s+(\w+)\s*=\s*([^;]+);', td_raw)
+        if not m or m.group(1) != m.group(3) or len(re.findall(r"#\[cfg", td_raw)) != 2:
+            raise ExtractError("NanBox::try_decode: the pointer-width dependent `let` pair changed shape")
+        td_raw = td_raw[:m.start()] + "let %s = if w == 32 { %s } else { %s };" % (m.group(1), m.group(2), m.group(4)) + td_raw[m.end():]
+        td_raw = re.sub(r'"[^"]*"', "STRLIT", td_raw)
+        _, tagb = rs2lean.find_fn(core, "tag", "NanBox")
+        opts = {"decode": True, "fns": {"tag": rs2lean.parse_body(tagb)}}
+        body_lean = rs2lean.translate(td_raw, {"self.0": "v", "w": "w", "STRLIT": "()"}, const_names, (), opts)
+        out = out[:-2]
+        out += ["",
+                "/-- `u8::try_from(v)` then strum's `Tag::from_repr` (`Tag::from_val`; shape-checked) -/",
+                "def tagFromVal (t : Nat) : Option Nat := if Tag_table.any (fun p => p.2 == t) then some t else none",
+                "/-- strum's `ErrorCode::from_repr(x).unwrap_or(ErrorCode::Unknown)` -/",
+                "def errorCodeFromRepr (x : Nat) : Nat := if ErrorCode_table.any (fun p => p.2 == x) then x else ErrorCode_Unknown",
+                "",
+                "/-- `NanBox::try_decode` with `NanBox::tag` inlined (core/src/read.rs); `Err(_)` = `decodeError` -/",
+                "def nanbox_try_decode (w v : Nat) : NanBox.Decoded :=",
+                body_lean, "", "end SfVerif.Gen"]
         return "\n".join(out) + "\n"
     except rs2lean.TranslateError as e:
         raise ExtractError("rs2lean: %s" % e)
@@ -1050,7 +1230,10 @@ def gen_fns_logs():
         params, body = rs2lean.find_fn(log, "append", "Logs")
         out.append("/-- `Logs::append`: ((skip, dst1, len1, dst2, len2), offset', len') -/")
         out.append("def log_append (offset len0 n : Nat) : (Nat × Option Nat × Nat × Option Nat × Nat) × Nat × Nat :=")
-        out.append(rs2lean.translate(body, {"len": "n", "self.offset": "offset", "self.len": "len0"},
+        pn = param_names(params)
+        if len(pn) != 1:
+            raise ExtractError("Logs::append parameters changed: %s" % params)
+        out.append(rs2lean.translate(body, {pn[0]: "n", "self.offset": "offset", "self.len": "len0"},
                                      {"CAPACITY": "LOG_CAPACITY"}, ["self.offset", "self.len"]))
         out.append("")
         params, body = rs2lean.find_fn(log, "read_ptrs", "Logs")
@@ -1074,9 +1257,22 @@ def gen_fns_state():
         for st in ("ObjectState", "ArrayState"):
             if not re.search(r"struct\s+%s\s*\{\s*length\s*:\s*usize\s*,\s*num_inserted\s*:\s*usize\s*,?\s*\}" % st, state):
                 raise ExtractError("struct %s is no longer { length: usize, num_inserted: usize }" % st)
-        _, sp = rs2lean.find_fn(state, "swap_and_push", "State")
-        if re.sub(r"\s+", "", sp) != "letmutnew_state=new_state;std::mem::swap(self,&mutnew_state);parent_state_stack.push(new_state);":
-            raise ExtractError("State::swap_and_push is no longer `swap self with the new state, push the old one`")
+        # the private helper that swaps a new state in and pushes the old one, whatever it is called
+        swap_tpls = ["let mut new_state = new_state; std::mem::swap(self, &mut new_state); parent_state_stack.push(new_state);",
+                     "let mut other = new_state; std::mem::swap(self, &mut other); parent_state_stack.push(other);",
+                     "let old = std::mem::replace(self, new_state); parent_state_stack.push(old);",
+                     "parent_state_stack.push(std::mem::replace(self, new_state));"]
+        swap_fn = None
+        for mfn in re.finditer(r"fn\s+(\w+)\s*\(\s*&mut\s+self\s*,([^)]*)\)\s*\{", state):
+            try:
+                ps, sp = fn_parts(state, mfn.group(1))
+            except ExtractError:
+                continue
+            if len(ps) == 2 and any(same_shape(sp, t, ps, ["new_state", "parent_state_stack"]) for t in swap_tpls):
+                swap_fn = mfn.group(1)
+        if swap_fn is None:
+            raise ExtractError("State: no helper that swaps `self` with the new state and pushes the old one onto the parent stack")
+        rs2lean.SWAP_FN = swap_fn
         out = ["-- REGENERATED by /verif/extract/extract.py (rs2lean) from function bodies in /repo; do not edit",
                "import SfVerif.Model.Writer", "namespace SfVerif.Gen", "open SfVerif"]
         for impl, fn, lean in [("ObjectState", "write_string", "obj_write_string"),
@@ -1090,10 +1286,15 @@ def gen_fns_state():
             out.append("")
         out += ["/-- `parent_state_stack.pop().unwrap_or(State::End)` -/",
                 "def popOrEnd : List WState → WState × List WState", "  | [] => (.done, [])", "  | s :: r => (s, r)", ""]
-        for fn, args, params in [("write_string", "", {}), ("write_non_string_scalar", "", {}),
-                                 ("start_object", "(len : Nat) ", {"length": "len"}), ("finish_object", "", {}),
-                                 ("start_array", "(len : Nat) ", {"length": "len"}), ("finish_array", "", {})]:
-            _, body = rs2lean.find_fn(state, fn, "State")
+        for fn, args, nparams in [("write_string", "", 0), ("write_non_string_scalar", "", 0),
+                                  ("start_object", "(len : Nat) ", 2), ("finish_object", "", 1),
+                                  ("start_array", "(len : Nat) ", 2), ("finish_array", "", 1)]:
+            ptext, body = rs2lean.find_fn(state, fn, "State")
+            pn = param_names(ptext)
+            if len(pn) != nparams:
+                raise ExtractError("State::%s no longer takes %d parameter(s)" % (fn, nparams))
+            params = {pn[0]: "len"} if nparams == 2 else {}
+            rs2lean.STACK_PARAM = pn[-1] if pn else "parent_state_stack"
             out.append("/-- `State::%s`: (state', parent stack', status) -/" % fn)
             out.append("def state_%s %s(st : WState) (stack : List WState) : WState × List WState × Nat :=" % (fn, args))
             out.append(rs2lean.translate_state_method(body, params))
@@ -1144,7 +1345,8 @@ def main():
                                ("FnsState.lean", "fns-state", gen_fns_state),
                                ("Markers.lean", "markers", gen_markers),
                                ("WriterStep.lean", "writer", gen_writer),
-                               ("ReadEntry.lean", "read-entries", gen_read_entries)]:
+                               ("ReadEntry.lean", "read-entries", gen_read_entries),
+                               ("DeInt.lean", "deint", gen_deint)]:
         try:
             text = gen()
             if write_if_changed(fname, text):
